@@ -54,6 +54,10 @@ class C06(Prop):
         for _ in range(n // 3):
             out.append({'mode': 'wire', 'kind': rng.choice(sources.KINDS), 'count': rng.choice([0, 1, 3, 6]), 'flagged': False, 'failing': False,
                         'channel': rng.random() < 0.4, 'n0': rng.choice([1, 2, 3, 2 ** 31 - 1]), 'more': [rng.choice([1, 2, 5, 2 ** 31 - 1, 2 ** 31 - 2]) for _ in range(rng.randint(0, 3))]})
+        for _ in range(n // 4):
+            more = [rng.choice([1, 2, 5]) for _ in range(rng.randint(1, 4))]
+            out.append({'mode': 'wire', 'tcp': True, 'kind': rng.choice(sources.KINDS), 'count': rng.choice([3, 6, 10, 20]), 'flagged': False, 'failing': False, 'channel': False,
+                        'n0': rng.choice([1, 2, 3]), 'more': more, 'over': [rng.choice([0, 1, 2, 3, 5]) for _ in range(len(more) + 1)]})
         # channels whose requester direction is alive too: its elements and its end (bare COMPLETE, last element carrying COMPLETE, ERROR) arrive
         # between the grants; the credit of the responder's direction is not affected by any of it
         for _ in range(n // 3):
@@ -254,7 +258,55 @@ class C06(Prop):
         await c.close()
         return out
 
+    async def _wire_tcp(self, loop, case):
+        # the same through the byte-stream transport: the grants arrive in reads that end anywhere, also inside the next frame's length prefix
+        import asyncio
+        from rsocket.rsocket_server import RSocketServer
+        from rsocket.request_handler import BaseRequestHandler
+        from rsocket.transports.tcp import TransportTCP
+        from rsocket.frame_parser import FrameParser
+        from rsocket import frame as F
+        from harness.link import Writer
+        src = sources.make_source(case['kind'], case['count'], False, False)
+
+        class H(BaseRequestHandler):
+            async def request_stream(self, payload):
+                return src
+
+        class L:
+            stream = [bytearray(), bytearray()]
+        reader = asyncio.StreamReader()
+        server = RSocketServer(TransportTCP(reader, Writer(L, 0)), handler_factory=H)
+        await loop.settle()
+        frames = [engine.build_frame({'ty': 'REQUEST_STREAM', 'sid': 1, 'n': case['n0'], 'data': [9]}).serialize()]
+        frames += [engine.build_frame({'ty': 'REQUEST_N', 'sid': 1, 'n': n}).serialize() for n in case['more']]
+        blobs = [len(b).to_bytes(3, 'big') + b for b in frames]
+        parser, seen = FrameParser(), [0]
+
+        async def payloads():
+            out = bytes(L.stream[0])
+            del L.stream[0][:]
+            async for fr in parser.receive_data(out, 3):
+                if isinstance(fr, F.PayloadFrame) and (fr.data or fr.metadata):
+                    seen[0] += 1
+            return seen[0]
+        trace, credit = [], 0
+        for i, b in enumerate(blobs):
+            over = case['over'][i] if i + 1 < len(blobs) else 0       # bytes of the next frame that arrive with this one
+            nxt = blobs[i + 1] if i + 1 < len(blobs) else b''
+            reader.feed_data(b + nxt[:over])
+            if i + 1 < len(blobs):
+                blobs[i + 1] = nxt[over:]
+            await loop.settle()
+            credit += case['n0'] if i == 0 else case['more'][i - 1]
+            trace.append([credit, await payloads()])
+        errors = []
+        await server.close()
+        return {'trace': trace, 'completes': 0, 'errors': errors}
+
     async def _wire(self, loop, case):
+        if case.get('tcp'):
+            return await self._wire_tcp(loop, case)
         from rsocket.rsocket_server import RSocketServer
         from rsocket.request_handler import BaseRequestHandler
         from rsocket import frame as F
